@@ -165,10 +165,20 @@ fn gen_c03(rng: &mut Rng, tier: Tier) -> LoopScn {
     s
 }
 
+/// Lower estimate of the virtual time one round takes (used to choose time
+/// limits that need a bounded number of rounds). Only costs that are really
+/// spent count: the generator cost needs an entry point with inputs, the
+/// drop cost a value whose destructor divan runs.
 fn est_round_ticks(s: &LoopScn) -> u128 {
     let size = s.sample_size.unwrap_or(1).max(1) as u128;
-    let c = |c: &Cost| c.eval(0, 1) as u128;
-    size * (c(&s.cost_gen) + c(&s.cost_call) + c(&s.cost_drop)) + 4 * s.clock.read_cost as u128
+    let c = |c: &Cost| match *c {
+        Cost::Noisy { base, .. } => base as u128,
+        ref other => other.eval(0, 0) as u128,
+    };
+    let gen = if s.entry.has_inputs() { c(&s.cost_gen) } else { 0 };
+    let drops = (s.oshape.has_drop() as u128)
+        + ((s.entry.by_ref() && s.eff_ishape().has_drop()) as u128);
+    size * (gen + c(&s.cost_call) + drops * c(&s.cost_drop)) + 4 * s.clock.read_cost as u128
 }
 
 fn gen_clock_faults(rng: &mut Rng, s: &mut LoopScn, round_ticks: u128) {
